@@ -166,6 +166,11 @@ def sched_parts(pid: str, tier: str):
         mons = ("C14",)
         mk("whole-run-N3-faults", Cfg(N=3, resources="tma", faults=2, flavours="sa", profiling=True, monitors=mons), base_req + ["w_fault", "w_fault_with_sibling", "w_raised_fault"], 600)
         mk("whole-run-N3-faults-nested", Cfg(N=3, resources="tm", faults=1, nested=True, sym_seq=False, monitors=mons), base_req + ["w_fault", "w_raised_fault"], 600)
+        from harness.graph import GCfg, run_c12
+
+        # "a call raises only because of a node failure or invalid arguments": every valid selection, also with an indexed
+        # return value of a node that the selection leaves out
+        parts.append(Part("valid-selections-do-not-raise-N2", P(run_c12, GCfg(N=2, indexed=True)), {"N": 2, "what": "executor runs for every (R, X, T) and alias form return; an unexecuted node reads as None, indexed or not"}, 600, 5, ["w_error_case"], GRAPH_FUNCS))
         from harness.faults import FCfg, run_c14_location
 
         parts.append(Part("failure-report-names-usage-and-line", P(run_c14_location, FCfg()), {"usages of one node function": 3, "variants": "three call sites, nested DAG, function used by an earlier DAG, profiling on",
